@@ -291,3 +291,93 @@ Proof. eexists. reflexivity. Qed.
 
 Lemma ex_cat_dump : map dump_pos ex_cat = [[0; 0]; [1120403456; 1112014848]; [1128792064; 0]]%Z.
 Proof. vm_compute. reflexivity. Qed.
+
+(* ---------- the edge hypothesis of [catmull_hausdorff_ieee], from the points ----------
+   consecutive control points at most L apart (as real points): every span's
+   edges, the one to the COMPUTED phantom point included, are at most
+   L + 9/2 * 2^(E-24) long *)
+
+Lemma sqd2_le_of_dist2 p q c : 0 <= c -> dist2 p q <= c -> sqd2 p q <= c * c.
+Proof.
+  intros Hc H. unfold dist2, sqd2, sqd in *. pose proof (sq_of_sqrt_le _ _ c Hc H). nra.
+Qed.
+
+Lemma sqd2_mono p q L L' : 0 <= L -> L <= L' -> sqd2 p q <= L * L -> sqd2 p q <= L' * L'.
+Proof. intros. nra. Qed.
+
+Lemma phantom_edge E a b L : (0 <= E <= 100)%Z -> point_ok E a -> point_ok E b -> 0 <= L ->
+  sqd2 (posR b) (posR a) <= L * L ->
+  sqd2 (posR a) (posR (pos_of2 (phantom32 (pair_of a) (pair_of b))))
+  <= (L + 9 / 2 * bp (E - 24)) * (L + 9 / 2 * bp (E - 24)).
+Proof.
+  intros HE [Ax Ay] [Bx By] HL H.
+  pose proof (bpow_gt_0 radix2 (E - 24)) as Hw.
+  unfold phantom32. rewrite !pos_pair. unfold psub, pmul. cbn [px py].
+  destruct (phantom_coord E _ _ HE Ax Bx) as [_ Dx]. destruct (phantom_coord E _ _ HE Ay By) as [_ Dy].
+  apply sqd2_le_of_dist2; [lra|].
+  replace (9 / 2 * bp (E - 24)) with (3 / 2 * (3 * bp (E - 24))) by field.
+  apply (dist2_perturb _ (phantomR (posR a) (posR b))); try lra.
+  - apply dist2_le; [exact HL|]. rewrite sqd2_phantom. nra.
+  - unfold posR, phantomR. cbn [fst snd px py]. exact Dx.
+  - unfold posR, phantomR. cbn [fst snd px py]. exact Dy.
+Qed.
+
+Lemma rest_spans_edges_ieee E L : (0 <= E <= 100)%Z -> 0 <= L -> forall pts,
+  Forall (point_ok E) pts -> edges_le L (map posR pts) ->
+  Forall (fun sp => span_ok (L + 9 / 2 * bp (E - 24)) (spanR sp)) (catmull_rest_spans phantom32 (map pair_of pts)).
+Proof.
+  intros HE HL. pose proof (bpow_gt_0 radix2 (E - 24)) as Hw.
+  induction pts as [|v1 pts IH]; intros Hok H; [constructor|].
+  destruct pts as [|v2 [|v3 r]]; try constructor.
+  - cbn [map edges_le] in H. destruct H as (H12 & H23 & Hr).
+    inversion Hok as [|? ? O1 Hok1]; subst. inversion Hok1 as [|? ? O2 Hok2]; subst. inversion Hok2 as [|? ? O3 Hok3]; subst.
+    cbn [map]. unfold spanR, span_ok, span_edges_le. rewrite !pos_pair.
+    split; [apply (sqd2_mono _ _ L); [exact HL|lra|exact H12]|].
+    split; [apply (sqd2_mono _ _ L); [exact HL|lra|exact H23]|].
+    destruct r as [|v4 r]; cbn [map].
+    + apply phantom_edge; assumption.
+    + rewrite pos_pair. apply (sqd2_mono _ _ L); [exact HL|lra|]. exact (proj1 Hr).
+  - apply IH; [inversion Hok; assumption|]. cbn [map edges_le] in H. exact (proj2 H).
+Qed.
+
+Lemma spans_edges_ieee E L pts : (0 <= E <= 100)%Z -> 0 <= L ->
+  Forall (point_ok E) pts -> edges_le L (map posR pts) ->
+  Forall (fun sp => span_ok (L + 9 / 2 * bp (E - 24)) (spanR sp)) (catmull_spans phantom32 (map pair_of pts)).
+Proof.
+  intros HE HL Hok H. pose proof (bpow_gt_0 radix2 (E - 24)) as Hw.
+  destruct pts as [|p0 [|p1 r]]; try constructor.
+  - cbn [map edges_le] in H. destruct H as (H01 & Hr).
+    inversion Hok as [|? ? O0 Hok1]; subst. inversion Hok1 as [|? ? O1 Hok2]; subst.
+    cbn [map]. unfold spanR, span_ok, span_edges_le. rewrite !pos_pair.
+    assert (HLL : 0 <= (L + 9 / 2 * bp (E - 24)) * (L + 9 / 2 * bp (E - 24))) by nra.
+    split; [rewrite sqd2_refl0; exact HLL|].
+    split; [apply (sqd2_mono _ _ L); [exact HL|lra|exact H01]|].
+    destruct r as [|v4 r]; cbn [map].
+    + apply phantom_edge; assumption.
+    + rewrite pos_pair. apply (sqd2_mono _ _ L); [exact HL|lra|]. cbn [map edges_le] in Hr. exact (proj1 Hr).
+  - apply (rest_spans_edges_ieee E L HE HL (p0 :: p1 :: r) Hok H).
+Qed.
+
+(* the whole segment, hypotheses on the control points only *)
+Theorem catmull_hausdorff_ieee_points E points cat L :
+  (0 <= E <= 100)%Z -> Forall (point_ok E) points ->
+  approximate_catmull points = Done cat -> 0 <= L -> edges_le L (map posR points) ->
+  let spans := catmull_spans phantom32 (map pair_of points) in
+  let L' := L + 9 / 2 * bp (E - 24) in
+  cat = flat_map span_path32 spans /\
+  Forall (fun sp => let '(v1, v2, v3, v4) := spanR sp in
+            span_follows_ieee (3 * L' / 10000) (3 / 2 * E_cat E) v1 v2 v3 v4 (map posR (span_path32 sp))) spans.
+Proof.
+  intros HE Hok Hrun HL He spans L'.
+  pose proof (bpow_gt_0 radix2 (E - 24)) as Hw.
+  apply (catmull_hausdorff_ieee E points cat L' HE Hok Hrun); [unfold L'; lra|].
+  apply spans_edges_ieee; assumption.
+Qed.
+
+Lemma ex_cat_edges : edges_le 112 (map posR ex_cat).
+Proof.
+  unfold ex_cat. cbn [map edges_le]. unfold posR, sqd2, sqd. cbn [px py fst snd].
+  rewrite (proj2 (S_ofZ' 0 ltac:(lia))), (proj2 (S_ofZ' 100 ltac:(lia))), (proj2 (S_ofZ' 50 ltac:(lia))),
+          (proj2 (S_ofZ' 200 ltac:(lia))).
+  repeat split; lra.
+Qed.
